@@ -248,7 +248,7 @@ TreeIns(ctx, e) ==
 ApplyEntry(ctx, m, e) ==
   IF ~Relevant(ctx.pk, e) THEN <<"ok", m>>
   ELSE IF e.type \notin KnownTypes THEN <<"invalid", m>>
-  ELSE IF Norm(e.dst) = <<>> /\ e.type \in DirTypes \cup LeafTypes THEN <<"ok", m>>  \* the root is not a destination (outside C05)
+  ELSE IF Norm(e.dst) = <<>> /\ e.type \in LeafTypes THEN <<"ok", m>>  \* a file-like entry AT the root is not a destination (outside C05)
   ELSE IF e.type = "implicit dir" THEN <<"ok", m>>
   ELSE IF e.type = "dir" THEN InsertAll(ctx, m, DirIns(ctx, e), TRUE, e.dst)
   ELSE IF e.type \in LeafTypes THEN InsertAll(ctx, m, LeafIns(ctx, e), TRUE, e.dst)
@@ -276,7 +276,8 @@ Paths_(m) == { KeyPath(k) : k \in DOMAIN m }
 
 UniqueAbsoluteClean(m) ==
   /\ \A k1, k2 \in DOMAIN m : KeyPath(k1) = KeyPath(k2) => k1 = k2
-  /\ \A k \in DOMAIN m : IsClean(KeyPath(k)) /\ KeyPath(k) # <<>>   \* the root is never an entry
+  \* (the root itself can be an entry - a tree or a directory whose destination is "/" - and only as a directory)
+  /\ \A k \in DOMAIN m : IsClean(KeyPath(k)) /\ (KeyPath(k) = <<>> => IsDirEnt(m[k]))
 
 ParentsClosed(m) ==
   \A k \in DOMAIN m : \A a \in Ancestors(KeyPath(k)) :
